@@ -803,6 +803,8 @@ class Sx:
 
 def _int_factors(n):
     from sympy.ntheory import factorint
+    if n == 1:
+        return {}
     r = math.isqrt(n)
     if r * r == n:
         return {r: 2}
@@ -1362,3 +1364,85 @@ def explore(ctx, fn, max_paths=64):
                 alt = [t[1] for t in trail[:j]] + [not val]
                 plans.append(alt)
         yield ([(sb, val) for sb, val, _ in trail], res, err)
+
+
+# ---------------------------------------------------------------------------------------------
+# substitution of path-condition equalities (non-generic paths)
+# ---------------------------------------------------------------------------------------------
+
+def equalities_to_substitutions(ctx, pathcond):
+    """From path-condition atoms of the form (linear-in-g == 0), derive substitutions g -> polynomial in the other
+    generators.  On such a path the parameter g is not free any more, and distinct symbolic phasors may coincide; the
+    obligation is therefore decided on the substituted terms."""
+    subs = []
+    for sb, val in pathcond:
+        if not isinstance(sb, SymBool) or sb.kind != 'rel':
+            continue
+        if not ((sb.op == '==' and val) or (sb.op == '!=' and not val)):
+            continue
+        k = sb.a.as_k()
+        if k is None:
+            continue
+        for gname, val_poly in subs:
+            k = _subs_k(k, ctx, gname, val_poly)
+        p = k.numer
+        ring = p.ring
+        for name in ctx.param_names:
+            gi = ctx.gen_index[name]
+            if p.degree(gi) != 1:
+                continue
+            # p = c*g + rest with c ground
+            c_terms = {}
+            rest = {}
+            ok = True
+            for mon, co in p.terms():
+                if mon[gi] == 1:
+                    m2 = mon[:gi] + (0,) + mon[gi + 1:]
+                    if any(m2):
+                        ok = False
+                        break
+                    c_terms[m2] = co
+                else:
+                    rest[mon] = co
+            if not ok or not c_terms:
+                continue
+            c = list(c_terms.values())[0]
+            rest_poly = ring.from_dict(rest)
+            val_poly = rest_poly * (-1 / c)
+            subs.append((name, val_poly))
+            break
+    return subs
+
+
+def _subs_k(k, ctx, gname, val_poly):
+    gi = ctx.gen_index[gname]
+    if (k.numer.degree(gi) if k.numer != 0 else 0) <= 0 and k.denom.degree(gi) <= 0:
+        return k
+    g = ctx.K.ring.gens[gi]
+    n = k.numer.compose(g, val_poly)
+    d = k.denom.compose(g, val_poly)
+    if d == 0:
+        raise NotEncodable('substitution makes a denominator vanish')
+    return ctx.K.new(n, d)
+
+
+def subs_sx(x, ctx, subs):
+    if not subs or not isinstance(x, Sx) or not x.t:
+        return x
+    out = Sx({}, ctx)
+    for (m, r, p), c in x.t.items():
+        for gname, vp in subs:
+            c = _subs_k(c, ctx, gname, vp)
+            if p != 0:
+                p = _subs_k(p, ctx, gname, vp)
+        if c == 0:
+            continue
+        if p != 0:
+            cc, p = ctx.split_phase(p)
+            r = r + cc
+        r = r % 2
+        if r >= 1:
+            r -= 1
+            c = -c
+        out = out + Sx({(m, r, p): c}, ctx)
+    return out
